@@ -156,8 +156,8 @@ def check_known(binary, cfg, prop, lines):
     for f in load_known():
         if prop not in f.get("properties", []):
             continue
-        if f.get("check_test") and f["check_test"] != cfg["test"]:
-            continue
+        if f.get("test") and f["test"] != cfg["test"]:
+            continue  # the reproducer belongs to another check's case format
         rep = f.get("reproducer")
         if not rep:
             continue
